@@ -149,6 +149,11 @@ class World:
                             "pay": rng.randrange(1 << 30), "big": rng.random() < 0.06,
                             "single": rng.choice([0, 0, 0, 0, 1, 2]), "again": rng.random() < 0.5,
                             "prefill": rng.random() < 0.3})
+                if ops[-1]["src"] == "abs" and rng.random() < 0.5:
+                    # ... and the same spectrum once more inside (another) units context
+                    ops.append({"op": "enter", "t": "u", "u": rng.randrange(len(UNITS))})
+                    ops.append(dict(ops[-2], again=True, pay=rng.randrange(1 << 30), fmt=rng.randrange(len(FORMATS))))
+                    ops.append({"op": "exit"})
         return {"classes": classes, "seed": rng.randrange(1 << 30), "ops": ops}
 
     def fault_variants(self, base, rng):
